@@ -18,6 +18,7 @@ import Verif.Lemmas.MptRound
 import Verif.Lemmas.MergeRound
 import Verif.Lemmas.OrderChanges
 import Verif.Lemmas.TrieRun
+import Verif.Lemmas.NotStuck
 import Verif.Lemmas.Interp
 import Verif.Lemmas.RefKeyInj
 namespace Verif.Props.C04
@@ -189,19 +190,30 @@ example : KeyHyps (fun x => (0 : UInt8) :: x) (fun r => r = ⟨[], .leaf 1 [3] [
     the block trie replays the child's pending changes in the order `orderChanges` computes, then its deletes
     (`mergeChanges`), and saves.  The event discipline is PROVED for all of it (own operations: Lemmas/EventDisc;
     the replay: Lemmas/Collector2, MergeCalls).  Remaining hypotheses: canonical resolvable start tree, key injectivity
-    on the references involved, and that `orderChanges` does not get stuck on the child's changes (`orderStuck = false`,
-    an executable test: no cycle of replacements; then its output is a permutation in which no change replaces a key
-    after a change (re)created it, `orderChanges_good`; the model driver evaluates the test at every merge). -/
+    on the references involved.  (That `orderChanges` does not get stuck on the child's changes is proved,
+    `trieRun_not_stuck`; then its output is a permutation in which no change replaces a key after a change (re)created
+    it, `orderChanges_good`.) -/
 theorem C04_complete_one_merge (H : Bytes → Bytes) (P0 : PStore) (t0 t1 t2 : Node) (b0 c0 : Trie) (v : Nat)
     (esP esC : List Event)
     (hfresh : b0.cc.changes = [] ∧ b0.cc.deletes = []) (hfreshC : c0.cc.changes = [] ∧ c0.cc.deletes = [])
     (h0 : Resolves H (Map.get P0.nodes) t0 []) (hw : WF t0)
     (hP : RoundEvents v t0 esP t1) (hC : RoundEvents v t1 esC t2)
-    (hstuck : orderStuck H (c0.applyEvents H esC).cc.getChanges = false)
     (hU : KeyInjOn H (fun r => r ∈ refs t0 [] ∨ r ∈ eventRefs esP ∨ r ∈ eventRefs esC)) :
     Resolves H (Map.get (P0.applyAll (saveStream H (b0.applyEvents H
       (esP ++ mergeEvents (orderChanges H (c0.applyEvents H esC).cc.getChanges) (c0.applyEvents H esC).cc.getDeletes)))).nodes)
       t2 [] := by
+  obtain ⟨_, hcrP0, hw10⟩ := round_ok hP hw (fun r => r ∈ refs t0 []) (fun _ h => h)
+  have hstuck : orderStuck H (c0.applyEvents H esC).cc.getChanges = false := by
+    have hrunC : TrieRun H (fun r => r ∈ refs t0 [] ∨ r ∈ eventRefs esP ∨ r ∈ eventRefs esC) (fun _ => True) t1 (esC ++ []) t2 :=
+      TrieRun.own v t1 t2 t2 esC [] trivial hC (fun r hr => Or.inr (Or.inr hr)) (TrieRun.nil _)
+    have hUt1 : ∀ r ∈ refs t1 [], r ∈ refs t0 [] ∨ r ∈ eventRefs esP ∨ r ∈ eventRefs esC := by
+      intro r hr
+      rcases liveRunR_sub esP _ r (hcrP0 r hr) with h | h
+      · exact Or.inl h
+      · exact Or.inr (Or.inl h)
+    have := trieRun_not_stuck H _ hU hrunC hw10 hUt1 c0 hfreshC (c0.applyEvents H esC).cc.getChanges
+      (by simp)
+    exact this
   have hgood := orderChanges_good H _ hstuck
   obtain ⟨hd, hc, hsubE⟩ := one_merge_discipline H hP hC hw c0 hfreshC _ (orderChanges_perm H _) hgood hU
   obtain ⟨_, hcrP, hw1⟩ := round_ok hP hw (fun r => r ∈ refs t0 []) (fun _ h => h)
@@ -252,7 +264,8 @@ theorem C04_complete_run (H : Bytes → Bytes) (U : Ref → Prop) (Vok : Nat →
     list executed from a freshly opened block trie on a canonical, resolvable tree, saving the block trie makes its
     tree resolve in the persistent store (`interp_is_trieRun`: every reachable trie has a `TrieRun` history).
     Side conditions (`RunIn`): the references of the executed operations stay inside `U`, on which the key is injective;
-    versions satisfy `Vok` (any predicate); no replayed ordering is stuck; the hash is never empty. -/
+    versions satisfy `Vok` (any predicate); the hash is never empty.  (That no replayed ordering gets stuck is proved:
+    `trieRun_not_stuck`.) -/
 theorem C04_complete_interp (H : Bytes → Bytes) (ord : List (Change Ref) → List (Change Ref)) (hord : ∀ l, (ord l).Perm l)
     (U : Ref → Prop) (Vok : Nat → Prop) (hU : KeyInjOn H U) (hne : ∀ x, H x ≠ []) (P0 : PStore) (t0 : Node) (v : Nat)
     (hw : WF t0) (hu : ∀ r ∈ refs t0 [], U r) (h0 : Resolves H (Map.get P0.nodes) t0 []) (ops : List TOp)
@@ -277,15 +290,11 @@ example : ∃ pid b, (Forest.run exH (fun l => l) { tries := [(0, 0, Trie.open (
     (by intro r h; simp [refs] at h) [.child 1 0, .ins 1 [3] [65], .merge 1 false] _ _ _ rfl
   · intro a b ha hb _; rw [ha, hb]
   · intro x; simp [exH]
-  · refine ⟨trivial, ?_, ?_, trivial⟩
-    · intro pid t hf
-      simp [Forest.step, Forest.find, Trie.open] at hf
-      obtain ⟨_, rfl⟩ := hf
-      simp [insertE, eventRefs]
-    · intro pid c hf
-      simp [Forest.step, Forest.find, Forest.set, Trie.open] at hf
-      obtain ⟨_, rfl⟩ := hf
-      decide
+  · refine ⟨trivial, ?_, by simp [StepIn], trivial⟩
+    intro pid t hf
+    simp [Forest.step, Forest.find, Trie.open] at hf
+    obtain ⟨_, rfl⟩ := hf
+    simp [insertE, eventRefs]
 
 /-- non-vacuity of `C04_complete_run` (and `TrieRun`): the block trie merges one transaction that inserted a key -/
 example : ∃ es, TrieRun id (fun r => r = ⟨[], .leaf 1 [3] [65]⟩) (fun v => v = 1) .empty es (.leaf 1 [3] [65]) ∧
@@ -317,7 +326,7 @@ example : Resolves id (Map.get (({} : PStore).applyAll (saveStream id ((Trie.ope
     rw [h1]; exact RoundEvents.nil _
   have := C04_complete_one_merge id {} .empty .empty (.leaf 1 [3] [65]) (Trie.open [] .empty 1) (Trie.open [] .empty 1) 1
     [] ((insertE 1 [65] .empty [] [3]).2 ++ []) ⟨rfl, rfl⟩ ⟨rfl, rfl⟩ (by intro r h; simp [refs] at h) (Or.inl rfl)
-    (RoundEvents.nil _) hC (by decide) (by
+    (RoundEvents.nil _) hC (by
       intro a b ha hb _
       simp [refs, insertE, eventRefs] at ha hb
       rw [ha, hb])
